@@ -371,11 +371,13 @@ func (s *Writer) prepareIntroducePersist(persists chan *persistIntroduction, new
 	case persists <- persist:
 	}
 
-	select {
-	case <-s.closeCh:
-		return segment.ErrClosed
-	case <-persist.applied:
-	}
+	// The introducer has accepted the request: it now owns newSegments (it
+	// deletes the entries it swaps into the new root) and it always closes
+	// persist.applied at the end of introducePersist.  Returning on closeCh
+	// here would run the deferred cleanup above concurrently with the
+	// introducer (a data race on the map, and it would close segments that
+	// the new root is using), so wait for the introducer unconditionally.
+	<-persist.applied
 
 	return nil
 }
